@@ -1,19 +1,23 @@
 import ClipperVerif.Driver.Basic
 import ClipperVerif.Driver.C18
+import ClipperVerif.Driver.C18Geom
 import ClipperVerif.Driver.Region
 import ClipperVerif.Driver.C05
 import ClipperVerif.Driver.C02
 import ClipperVerif.Driver.Ael
+import ClipperVerif.Driver.C11
 namespace Clipper.Driver
 open Clipper.Proto
 
 def handlers : List (String → Option (P String)) := [
   Basic.handle,
   C18.handle,
+  C18Geom.handle,
   Region.handle,
   C05.handle,
   C02.handle,
-  Ael.handle
+  Ael.handle,
+  C11.handle
 ]
 
 def dispatch (cmd : String) : Option (P String) :=
